@@ -118,6 +118,8 @@ type State struct {
 	sawTokens   bool
 	inDetached  bool
 	loopHavoc   bool
+	lockCount   map[string]int    // acquisitions per mutex identity on this path
+	smOps       int               // sync.Map primitives executed on this path
 	lockSnap    *Snapshot         // state right after the most recent lock acquisition
 	lockSnaps   []*Snapshot       // every lock acquisition of this call, in order
 	private     map[string]bool   // objects allocated by this call and not yet published
@@ -133,7 +135,7 @@ type ctxRec struct {
 func (e *Engine) newState() *State {
 	return &State{e: e, heap: map[string]string{},
 		declared: map[string]bool{}, nonnil: map[string]bool{}, locks: map[string]string{}, iters: map[string]*Iter{},
-		ctxs: map[string]ctxRec{}, funcs: map[string]*FuncV{}, birth: map[string]string{}, private: map[string]bool{}, mapOwner: map[string]mapOwner{}, chanOwner: map[string]chanOwner{}, recvd: map[string]bool{}, borrowed: map[string]string{}, instDone: map[string]bool{}, instSeen: map[string]int{}, written: map[string]bool{}, known: map[string]string{}, allocConst: map[string]bool{}}
+		ctxs: map[string]ctxRec{}, funcs: map[string]*FuncV{}, birth: map[string]string{}, private: map[string]bool{}, mapOwner: map[string]mapOwner{}, chanOwner: map[string]chanOwner{}, recvd: map[string]bool{}, borrowed: map[string]string{}, instDone: map[string]bool{}, instSeen: map[string]int{}, lockCount: map[string]int{}, written: map[string]bool{}, known: map[string]string{}, allocConst: map[string]bool{}}
 }
 
 func (st *State) clone() *State {
@@ -174,6 +176,11 @@ func (st *State) clone() *State {
 	for k, v := range st.instSeen {
 		n.instSeen[k] = v
 	}
+	n.lockCount = map[string]int{}
+	for k, v := range st.lockCount {
+		n.lockCount[k] = v
+	}
+	n.smOps = st.smOps
 	n.written = map[string]bool{}
 	for k, v := range st.written {
 		n.written[k] = v
